@@ -56,6 +56,8 @@ structure St where
   gen : Nat := 0
   /-- set when the real code would hit `unreachable!()` / an index panic -/
   panicked : Option String := none
+  /-- `type_resolution_gave_up`: the type resolution in progress has hit the depth limit and is being unwound -/
+  typeGaveUp : Bool := false
   deriving Repr, Inhabited
 
 /-! ### identifiers -/
